@@ -379,6 +379,45 @@ fn brief(r: &Result<Option<Vec<u8>>, String>) -> String {
     }
 }
 
+/// The real `convert_kytea_model` binary on one file: exit status and written model (zstd-decoded)
+/// must agree with the in-process conversion of the same bytes; a rejected file must end in a clean
+/// error (no panic, no signal) and a complete one in exit 0.
+pub fn check_cli(bytes: &[u8], label: &str) -> Option<(String, String)> {
+    let dir = format!("{}/c17-{label}", crate::c19::SCRATCH);
+    let _ = std::fs::remove_dir_all(&dir);
+    std::fs::create_dir_all(&dir).unwrap_or_else(|e| machinery_error(&e.to_string()));
+    let (inp, outp) = (format!("{dir}/kytea.bin"), format!("{dir}/model.zst"));
+    std::fs::write(&inp, bytes).unwrap_or_else(|e| machinery_error(&e.to_string()));
+    let out = std::process::Command::new(format!("{}/convert_kytea_model", crate::c19::CLI_DIR))
+        .args(["--model-in", &inp, "--model-out", &outp])
+        .output()
+        .unwrap_or_else(|e| machinery_error(&format!("cannot run convert_kytea_model: {e}")));
+    let stderr = String::from_utf8_lossy(&out.stderr).to_string();
+    let code = out.status.code();
+    let want = guard(|| {
+        let mut rest = bytes;
+        KyteaModel::read(&mut rest).ok().and_then(|k| Model::try_from(k).ok()).and_then(|m| m.to_vec().ok())
+    });
+    let r = (|| {
+        if code.is_none() || code == Some(101) || stderr.contains("panicked at") {
+            return Some(("cli-crash".to_string(), format!("convert_kytea_model ended with {:?}: {}", out.status, stderr.lines().filter(|l| l.contains("panicked")).collect::<Vec<_>>().join(" | "))));
+        }
+        match want {
+            Err(p) => Some(("cli-lib-panic".to_string(), format!("the library conversion panicked: {p}"))),
+            Ok(None) => (code == Some(0)).then(|| ("cli-accepts".to_string(), "the tool exited 0 on a file the library rejects".to_string())),
+            Ok(Some(b)) => {
+                if code != Some(0) {
+                    return Some(("cli-rejects".to_string(), format!("the tool exited with {code:?} ({}) on a file the library converts", stderr.lines().last().unwrap_or(""))));
+                }
+                let got = std::fs::read(&outp).ok().and_then(|z| zstd::decode_all(&z[..]).ok());
+                (got.as_deref() != Some(&b[..])).then(|| ("cli-model-differs".to_string(), format!("the model written by the tool ({} bytes) differs from the library conversion ({} bytes)", got.map_or(0, |g| g.len()), b.len())))
+            }
+        }
+    })();
+    let _ = std::fs::remove_dir_all(&dir);
+    r
+}
+
 /// Every proper prefix must be rejected with an error.
 pub fn check_prefixes(bytes: &[u8]) -> Option<(usize, String, String)> {
     for k in 0..bytes.len() {
@@ -523,6 +562,11 @@ pub fn replay(c: &Value) -> Option<(String, String)> {
         let name = c["name"].as_str()?;
         return check_prefixes(&bytes).map(|(_, kd, w)| (format!("{kd} file={name}"), w));
     }
+    if c["kind"] == "cli" {
+        let bytes: Vec<u8> = serde_json::from_value(c["bytes"].clone()).ok()?;
+        let name = c["name"].as_str()?;
+        return check_cli(&bytes, "replay").map(|(kd, w)| (format!("{kd} file={name}"), w));
+    }
     if c["kind"] == "delivery" {
         let bytes: Vec<u8> = serde_json::from_value(c["bytes"].clone()).ok()?;
         let name = c["name"].as_str()?;
@@ -588,6 +632,53 @@ pub fn run(tier: Tier) -> ! {
     if let Some((_, kd, what)) = check_prefixes(&real[..consumed]) {
         chk.violation(format!("{kd} file=resources/kytea-model.bin"), what, json!({"kind": "prefix", "name": "resources/kytea-model.bin", "bytes": real[..consumed].to_vec()}));
     }
+    // the real converter binary: a sub-sample of the generated files, the repository's model, and
+    // truncated / padded variants of both (clean error resp. same model)
+    if !std::path::Path::new(&format!("{}/convert_kytea_model", crate::c19::CLI_DIR)).exists() {
+        machinery_error("convert_kytea_model binary not built (the check driver builds it)");
+    }
+    let mut cli_files: Vec<(String, Vec<u8>)> = sp.iter().step_by(tier.pick(97, 11)).map(|(n, k)| (n.clone(), write_kytea(k))).collect();
+    cli_files.push(("resources/kytea-model.bin".into(), real.clone()));
+    // files larger than the tool's 8 KiB read buffer: filler characters appended to the character map,
+    // their byte count swept so that EVERY byte of the tries / dictionary part of one multi-dictionary file
+    // (failure-link outputs included) lands on the 8192 boundary once
+    {
+        let (bname, base) = sp.iter().rev().find(|(n, k)| n.starts_with("dict") && k.n_dicts >= 2 && k.words.len() >= 2 && k.inherit_outputs).unwrap_or_else(|| machinery_error("no multi-dictionary spec"));
+        let b0 = write_kytea(base);
+        let map_bytes: usize = base.char_map.iter().map(|c| c.len_utf8()).sum();
+        let tail = b0.len() - (41 + map_bytes);
+        let lo = 8192usize.saturating_sub(41 + map_bytes + tail);
+        let hi = 8192 - (41 + map_bytes);
+        for f in (lo..=hi).step_by(tier.pick(1, 1)) {
+            if f < 2 {
+                continue;
+            }
+            let (n3, n2) = if f % 3 == 0 { (f / 3, 0) } else if f % 3 == 2 { (f / 3, 1) } else { (f / 3 - 1, 2) };
+            let mut k = base.clone();
+            k.char_map.extend((0..n3 as u32).filter_map(|q| char::from_u32(0x4E00 + q)));
+            k.char_map.extend((0..n2 as u32).filter_map(|q| char::from_u32(0x0100 + q)));
+            cli_files.push((format!("{f} filler bytes in the character map of [{bname}]"), write_kytea(&k)));
+        }
+    }
+    let mut variants = vec![];
+    for (n, b) in &cli_files {
+        for cut in [0usize, 1, b.len() / 2, b.len().saturating_sub(1)] {
+            variants.push((format!("{n} [first {cut} bytes]"), b[..cut.min(b.len())].to_vec()));
+        }
+        // a file larger than the 8 KiB buffer of the tool's BufReader: the same model padded at the end
+        let mut padded = b.clone();
+        padded.extend(std::iter::repeat(0u8).take(20000));
+        variants.push((format!("{n} [+20000 trailing zero bytes]"), padded));
+    }
+    cli_files.extend(variants);
+    chk.set("converter_cli_runs", json!(cli_files.len()));
+    cli_files.par_iter().enumerate().for_each(|(i, (name, bytes))| {
+        chk.eval(1);
+        chk.nontrivial(1);
+        if let Some((kd, what)) = check_cli(bytes, &format!("f{i}")) {
+            chk.violation(format!("{kd} file={name}"), what, json!({"kind": "cli", "name": name, "bytes": bytes}));
+        }
+    });
     chk.set("truncation_points", json!(prefix_count.into_inner() + consumed as u64));
     chk.sample(json!({"file": sp[sp.len() / 2].0}));
     chk.sample(json!({"file": "resources/kytea-model.bin", "every_prefix_of_bytes": consumed}));
@@ -595,7 +686,7 @@ pub fn run(tier: Tier) -> ! {
     chk.assume("files without a character or type n-gram trie are not generated: the converter answers them with an explicit error by design");
     chk.assume("dictionary weight layout anchored as 3*buckets*dict + 3*bucket + {boundary before the word, inside, boundary after the word}");
     chk.finish(
-        "generated KyTea files: 2 character maps x window pairs x every set of <= k n-grams per trie (prefix-related keys, extra stored weights, the 0x04 type byte) with rotating partner sets, and 1/2/8 dictionaries x buckets {1,2,4} x word sets x membership-mask assignments (sub-sampled, stride stated in code), 0-2 tag slots; each converted model must equal the file's content (mirror-decoded, order-insensitive) and score all texts up to 4 characters as the reference dictates; delivered through readers with short reads (at most 1/2/3/7/13 bytes per call, BufReader capacities 5/7/64) every file must convert to the same model as from a slice; every proper prefix of the generated files (quick: every 4th file) and of resources/kytea-model.bin must be rejected without a panic; evaluations = files + truncation points",
+        "generated KyTea files: 2 character maps x window pairs x every set of <= k n-grams per trie (prefix-related keys, extra stored weights, the 0x04 type byte) with rotating partner sets, and 1/2/8 dictionaries x buckets {1,2,4} x word sets x membership-mask assignments (sub-sampled, stride stated in code), 0-2 tag slots; each converted model must equal the file's content (mirror-decoded, order-insensitive) and score all texts up to 4 characters as the reference dictates; delivered through readers with short reads (at most 1/2/3/7/13 bytes per call, BufReader capacities 5/7/64) every file must convert to the same model as from a slice; the real convert_kytea_model binary on a sub-sample of the files, the repository's model and truncated / padded variants must agree with the library on acceptance and write the identical model; every proper prefix of the generated files (quick: every 4th file) and of resources/kytea-model.bin must be rejected without a panic; evaluations = files + truncation points",
         true,
         &replay,
     )
